@@ -284,8 +284,9 @@ def replay_layout(rec, root, idx, do_fs, words=WORDS):
                 gote = _norm_ext(_attrs(r))
                 diff = [e for e in ENTS if gote[e] != wante[e]]
                 out.append(('viol', f'C20/b/{kind}/history/' + ('+'.join(diff) if diff else 'path'),
-                            f'step {k + 1} of a look-up history on one layout object: the answer depends on what '
-                            f'was looked up before (entities the look-up does not name differ from the base file)',
+                            f'step {k + 1} of a look-up history on one layout object: the answer is not the '
+                            f'look-up of that step\'s base file (entities the look-up does not name differ from '
+                            f'it; at steps > 1 the answer depends on what was looked up before)',
                             case))
                 break
             if who is not None and who != wantp:
